@@ -479,3 +479,7 @@ mod tests {
         assert_eq!(PropertyValue::Int(3).as_float(), None);
     }
 }
+
+#[cfg(kani)]
+#[path = "/verif/kani/api/lib.rs"]
+mod kani_harness;
